@@ -214,29 +214,61 @@ def run(ctx):
         impl.append((inp, outcome, objs, nameof))
     # dense reconstruction
     from pero_ocr.core.layout import TextLine
-    for _ in range(60 if ctx.quick() else 1000):
+    from scipy import sparse as _sp
+    for it in range(120 if ctx.quick() else 2000):
         chars = ['a', 'b', 'c']
-        lg = rnd_matrix(rng, chars)
+        if it % 2 == 0:
+            lg = rnd_matrix(rng, chars)
+            tol = 1e-9
+            kind = 'float64'
+        else:
+            # what the OCR engine stores: float32 logits, confident frames with large logits next to frames in which (nearly)
+            # everything was pruned, so that rows of one line differ by more than 100 after the floor is filled in
+            T = rng.randrange(1, 9)
+            big = rng.choice([9.0, 30.0, 60.0])
+            rows = []
+            for _ in range(T):
+                r = rng.random()
+                if r < 0.3:
+                    rows.append([0.0] * 4)                                            # fully pruned frame
+                elif r < 0.6:
+                    row = [0.0] * 4
+                    row[rng.randrange(4)] = rng.uniform(big / 2, big)                  # one confident symbol
+                    rows.append(row)
+                else:
+                    rows.append([(rng.uniform(-big, big) if rng.random() < 0.6 else 0.0) for _ in range(4)])
+            dt = rng.choice([np.float32, np.float32, np.float64])
+            lg = _sp.csc_matrix(np.array(rows, dtype=dt))
+            tol = 1e-4 if dt == np.float32 else 1e-9
+            kind = 'float32' if dt == np.float32 else 'float64-wide'
+        ctx.count('dense:' + kind)
         line = TextLine(id='x', logits=lg)
         d = line.get_dense_logits()
         st = lg.toarray()
         ctx.evaluations += 1
+        rep_in = dict(matrix=st.tolist(), dtype=kind)
         if not np.array_equal(d[st != 0], st[st != 0]) or not np.all(d[st == 0] == -80):
-            ctx.violation('dense', 'dense reconstruction does not return stored logits / floor', dict(matrix=st.tolist()))
+            ctx.violation('dense', 'dense reconstruction does not return stored logits / floor', rep_in)
         lp = line.get_full_logprobs()
-        if np.abs(np.exp(lp).sum(axis=1) - 1).max() > 1e-9:
-            ctx.violation('dense-normalised', 'full log-probs are not row-normalised', dict(matrix=st.tolist()))
+        with np.errstate(all='ignore'):
+            rs = np.exp(np.asarray(lp, dtype=np.float64)).sum(axis=1)
+        if not np.all(np.isfinite(lp)) or np.abs(rs - 1).max() > max(tol, 1e-9) * 10:
+            ctx.violation('dense-normalised', 'full log-probs are not row-normalised', rep_in)
         # the floor is a parameter of every call: repeated reconstructions of the SAME line with different floors
         for floor in (rng.choice([-50.0, -20.0, -120.0]), -80, rng.choice([-30.0, -99.0])):
             d2 = line.get_dense_logits(floor)
             if not np.array_equal(d2[st != 0], st[st != 0]) or not np.all(d2[st == 0] == floor):
-                ctx.violation('dense-floor', 'dense reconstruction does not return the requested floor for pruned entries', dict(matrix=st.tolist(), floor=floor))
+                ctx.violation('dense-floor', 'dense reconstruction does not return the requested floor for pruned entries', dict(rep_in, floor=floor))
             lp2 = line.get_full_logprobs(floor)
-            ref = d2 - np.logaddexp.reduce(d2, axis=1)[:, np.newaxis]
-            if np.abs(lp2 - ref).max(initial=0) > 1e-9 or np.abs(np.exp(lp2).sum(axis=1) - 1).max(initial=0) > 1e-9:
-                ctx.violation('dense-floor-logprobs', 'log-probabilities are not the row-normalised dense logits for the requested floor', dict(matrix=st.tolist(), floor=floor))
+            d64 = np.asarray(d2, dtype=np.float64)
+            ref = d64 - np.logaddexp.reduce(d64, axis=1)[:, np.newaxis]
+            with np.errstate(all='ignore'):
+                bad = (not np.all(np.isfinite(lp2))) or np.abs(lp2 - ref).max(initial=0) > tol * (1 + np.abs(ref).max(initial=0)) \
+                    or np.abs(np.exp(np.asarray(lp2, dtype=np.float64)).sum(axis=1) - 1).max(initial=0) > max(tol, 1e-9) * 10
+            if bad:
+                ctx.violation('dense-floor-logprobs', 'log-probabilities are not the row-normalised dense logits for the requested floor', dict(rep_in, floor=floor))
         if lg.nnz != (st != 0).sum() or not np.array_equal(lg.toarray(), st):
-            ctx.violation('dense-mutates', 'dense reconstruction modified the stored sparse logits', dict(matrix=st.tolist()))
+            ctx.violation('dense-mutates', 'dense reconstruction modified the stored sparse logits', rep_in)
     # end-to-end rebuild: PAGE XML + logits -> same greedy text, same ALTO words
     e2e(ctx, rng)
     if ctx.driver_ok:
